@@ -16,6 +16,7 @@
   `takeCount s tr` counts its `.take _ s` events.
 -/
 import Simpleline.Lemmas.DispatchQueue
+import Simpleline.Lemmas.DispatchCount
 
 namespace Simpleline
 open Dispatch
@@ -197,6 +198,28 @@ theorem C02_failure_contained_handler (c : Cfg) (body K : List Instr) (s : Sig) 
 theorem C02_failure_uncaught (c : Cfg) (h : ∀ i ∈ c.code, errCatch i = none) :
     c.raise .err = .error (.raised "err", { c with code := [] }) :=
   raise_err_uncaught c h
+
+/-- **A failing handler skips nothing but its own rest.**  In a reachable configuration let a body instruction
+`ins` (handler, scheduler or input code: not one of the loop's own instructions) be executing with `rest`
+pending below it, and let `x` be the first catcher of ordinary exceptions in `rest`.  Then what an exception raised
+by `ins` drops — `D`, with `rest = D ++ afterCatch x post` — contains no loop instruction except the catching
+`catchHandler` itself: no `dispatch` (the remaining handlers of this or of any enclosing signal), no `loopCheck` /
+`mainCheck` (the later signals), no `processSignal`. -/
+theorem C02_failure_drops_only_body (P : Prog) (c0 c : Cfg) (h0 : Started c0) (hr : Reach P c0 c)
+    (ins x : Instr) (pre post : List Instr) (src : Src) (hc : c.code = ins :: (pre ++ x :: post))
+    (hins : ins.isLC = false) (hpre : ∀ i ∈ pre, errCatch i = none) (hx : errCatch x = some src) :
+    ∃ D, pre ++ x :: post = D ++ afterCatch x post ∧ ∀ i ∈ D, i.isLC = false ∨ i = .catchHandler :=
+  err_drop_noLC (hc ▸ Shape.reach_chained h0 hr) hins rfl hpre hx
+
+/-- … on the level of transitions: a successful step out of a reachable configuration that does not record an
+exit request keeps every loop instruction pending below the executed one (`isKeep`: `dispatch`, `loopCheck`,
+`mainCheck`, …; everything of the loop core but `catchHandler`), in order — whatever the step was: a handler
+failing, scheduler or input code failing, at any depth.  So neither the remaining handlers of the signal nor any
+later signal are lost to an ordinary exception. -/
+theorem C02_failure_never_skips (P : Prog) (c0 c c' : Cfg) (h0 : Started c0) (hr : Reach P c0 c)
+    (hs : step P c = .ok c') (hx : Tr.exit ∉ newTr c c') :
+    c.code.tail.filter isKeep <:+ c'.code.filter isKeep :=
+  keep_loop_core h0 hr hs hx
 
 /-! ### 5. the exception signal overtakes everything pending -/
 
